@@ -42,6 +42,7 @@ type xset struct {
 	sym   int
 	sub   []*xset
 	named int
+	id    int // complements: the harness' name, carried as the Origin
 }
 
 type xnonterm struct {
@@ -153,7 +154,7 @@ func (s *xset) str() string {
 	case s.kind == 8:
 		return sx.List("named", sx.Int(s.named))
 	case s.kind == 7:
-		return sx.List("compl", s.sub[0].str())
+		return sx.List("compl", sx.Int(s.id), s.sub[0].str())
 	}
 	ps := make([]string, len(s.sub))
 	for i, t := range s.sub {
@@ -228,7 +229,7 @@ func (m *xmodel) toSyntax() *syntax.Model {
 		if into == nil {
 			into = &syntax.TokenSet{}
 		}
-		into.Origin = vnode{"set", 0}
+		into.Origin = vnode{"set", s.id}
 		switch {
 		case s.kind < 5:
 			into.Kind = syntax.SetOp(s.kind)
@@ -243,11 +244,14 @@ func (m *xmodel) toSyntax() *syntax.Model {
 	}
 	for i, s := range m.sets {
 		if s.kind == 8 {
-			// a top-level alias: Sets[i] is the same pointer as Sets[named]
+			// a top-level alias: Sets[i] is the same pointer as Sets[named] (an earlier, non-alias set)
 			ret.Sets[i] = ret.Sets[s.named]
-			continue
 		}
-		conv(s, ret.Sets[i])
+	}
+	for i, s := range m.sets {
+		if s.kind != 8 {
+			conv(s, ret.Sets[i])
+		}
 	}
 	for _, nt := range m.nonterms {
 		ret.Nonterms = append(ret.Nonterms, &syntax.Nonterm{Name: nt.name, Params: nt.params, Value: nt.value.toSyntax(ret), Origin: vnode{"nonterm", 0}})
